@@ -131,7 +131,7 @@ Definition numeric_asserts : list (string * string * string) :=
     ("solver.py", "rho != -1.0", "C16_trial_penalties (rho > 0)");
     ("solver.py", "path_dist >= direct_dist or np.isclose(path_dist, direct_dist)", "C12_dist_factor");
     ("step/cond_estimate.py", "0 < min_prob < 1", "constant"); ("step/cond_estimate.py", "num_its > 0", "size >= 1 (empty systems are skipped)");
-    ("step/newton_control.py", "min_tau >= 0", "minimum of positive entries");
+    ("step/newton_control.py", "min_tau >= 0", "C06_compute_tau_smallest_assertion");
     ("step/solver/asymmetric_step_solver.py", "(curr_cols[:-1] <= curr_cols[1:]).all()", "unused since the fix of F16");
     ("step/solver/asymmetric_step_solver.py", "(0 <= curr_cols).all()", "unused since the fix of F16");
     ("step/solver/asymmetric_step_solver.py", "(curr_cols < n + m).all()", "unused since the fix of F16");
